@@ -246,15 +246,22 @@ def check_c11(ctx):
             add(d["openapi"], "openapi3", "yaml", via="stmt")
     # beyond the listed properties: the Avro and Protocol Buffers importers, judged by the same facts (records / messages with
     # their fields, enumeration members); both are arr.ai importers (2 s and 6 s per document)
+    import re
+    ident = re.compile(r"^[A-Za-z_][A-Za-z0-9_]*$")
+
+    def plain_names(doc):
+        # both formats restrict names to identifiers: other documents are not well formed there
+        return all(ident.match(t["name"]) and all(ident.match(f["name"]) for f in t["fields"]) for t in doc["types"])
+
     for i, d in enumerate(field):
-        if i % (step * 2) == ctx.seed % (step * 2):
+        if i % (step * 2) == ctx.seed % (step * 2) and plain_names(d["avro"]):
             add(d["avro"], "avro")
-        if i % (step * 5) == ctx.seed % (step * 5):
+        if i % (step * 5) == ctx.seed % (step * 5) and plain_names(d["proto"]):
             add(d["proto"], "proto")
     for i, d in enumerate(rnd + awk):
-        if i % 3 == 0:
+        if i % 3 == 0 and plain_names(d["avro"]):
             add(d["avro"], "avro")
-        if i % 6 == 0:
+        if i % 6 == 0 and plain_names(d["proto"]):
             add(d["proto"], "proto")
     events, prints, results = run(ctx, "C11", scn)
     judge(ctx, "C11", scn, events, prints)
